@@ -219,8 +219,9 @@ Definition parse_annot (fuel : nat) (ts : list tok) : res (option (list kv) * li
    WBad      the walker reported an error (Parse will fail) and went on with the following items;
    WBadStop  the walker reported an error and abandoned the remaining items of this list
              (parseDeclaration returned nil);
-   WCrash    walker.parseRoutingRule dereferences the outbound function without a nil check: an outbound
-             function with an empty parameter list is a nil pointer dereference. *)
+   WCrash    the walker panicked.  Nothing in the model produces it any more: parseRoutingRule returns nil
+             when the outbound function was refused, and Parse does not walk a tree that has syntax errors;
+             the constructor stays so that "never crashes" is a statement about the functions, not the type. *)
 Inductive witem := WItem (i : gitem) | WBad | WBadStop | WCrash.
 Inductive wres (A : Type) := WOk (a : A) | WErr | WCrashed.
 Arguments WOk {A} _.
@@ -236,7 +237,9 @@ Fixpoint walk_items (l : list witem) : wres (list gitem) :=
   | WCrash :: _ => WCrashed
   end.
 
-(* routingRule: functionPrototypeExpression '->' outboundExpr ; outboundExpr: bare_literal | functionPrototype *)
+(* routingRule: functionPrototypeExpression '->' outboundExpr ; outboundExpr: bare_literal | functionPrototype.
+   An outbound function with an empty parameter list: parseFunctionPrototype reports the error and returns
+   nil, parseRoutingRule returns nil, the caller abandons the rest of its list. *)
 Definition parse_rule (fuel : nat) (ts : list tok) : res (witem * list tok) :=
   match parse_funcs fuel ts with
   | Ok (fos, TArrow :: rest) =>
@@ -245,7 +248,7 @@ Definition parse_rule (fuel : nat) (ts : list tok) : res (witem * list tok) :=
       | TNot :: _ | TId _ :: TLParen :: _ =>
           match parse_func fuel rest with
           | Ok (Some o, r) => Ok (mk o, r)
-          | Ok (None, r) => Ok (WCrash, r)
+          | Ok (None, r) => Ok (WBadStop, r)      (* parseRoutingRule returns nil: the list is abandoned *)
           | Err => Err | OutOfFuel => OutOfFuel
           end
       | TId n :: r | TNonId n :: r => Ok (mk (GFunc n false []), r)
@@ -438,8 +441,11 @@ Fixpoint dfs_merge (fuel : nat) (fs : filesys) (expand : str -> list str)
   end.
 
 (* ================================================================== Part 4: capacity *)
-(* capacity: the userspace builder indexes per-match-set arrays of MaxMatchSetLen entries with the rule
-   index of every domain set (AhocorasickSlimtrie.AddSet: n.toBuildTrie[bitIndex]) and never compares the
-   number of match sets with the limit.  [domain_sets]: rule indices of the domain match sets. *)
-Definition build_userspace (domain_sets : list N) : wres unit :=
-  if existsb (fun i => max_match_set_len <=? i) domain_sets then WCrashed else WOk tt.
+(* capacity: BuildUserspace (and the DNS request/response matcher builders) first compare the number of
+   match sets with MaxMatchSetLen and answer with an error when it is exceeded; only then are the per-match-set
+   arrays of MaxMatchSetLen entries indexed with the rule index of every domain set
+   (AhocorasickSlimtrie.AddSet: n.toBuildTrie[bitIndex]).  [domain_sets]: rule indices of the domain sets. *)
+Definition build_userspace (n_match_sets : N) (domain_sets : list N) : wres unit :=
+  if max_match_set_len <? n_match_sets then WErr
+  else if existsb (fun i => max_match_set_len <=? i) domain_sets then WCrashed
+  else WOk tt.
